@@ -485,6 +485,67 @@ Proof.
 Qed.
 
 
+(* ---------------------------------------------------------------- single-segment path (evaluate_fragment_main) *)
+Section MainOnly.
+Hypothesis aux_empty : aux_groups = [].        (* no auxiliary segment: get_boundary_constraints returns no aux groups *)
+
+Lemma ags_main_only : ags = map (fun g => (bg_div g, bg_cs g, [])) main_groups.
+Proof. unfold ags. rewrite aux_empty. reflexivity. Qed.
+
+(* table_row_spec for the single-segment code path: evaluate_fragment_main reads only the main frame, merges the main
+   transition constraints with the FIRST num_main coefficients and evaluates the boundary groups with evaluate_main *)
+Theorem evaluate_spec_main :
+  evaluate O n ceb ldeb offset rou num_main tmain taux ppolys exemptions tcoef main_groups aux_groups rands false
+           lde_main lde_aux (fun _ v => v)
+  = Some (map (fun i => comp_def false (ce_x i)) (seq 0 ce_size)).
+Proof.
+  unfold evaluate. destruct ptable_spec as [t [Ht Hrow]]. rewrite Ht.
+  rewrite prover_groups_realize.
+  set (divisors := tdiv O n rou exemptions :: map (@pg_div F) (map realize ags)).
+  rewrite (mapM_some _ (fun d => (d, inv_evals d))).
+  2:{ intros d Hd. rewrite get_inv_evaluation_spec; [reflexivity|].
+      destruct Hd as [<-|Hd]; [apply tdiv_ok|].
+      rewrite map_map in Hd. apply in_map_iff in Hd. destruct Hd as [[[d' m] a] [<- Hin]].
+      pose proof (proj1 (Forall_forall _ _) ags_ok _ Hin) as [[_ [Ha _]] _]. exact Ha. }
+  apply mapM_some. intros i Hi. apply in_seq in Hi. destruct Hi as [_ Hi]. cbn [Nat.add] in Hi.
+  unfold eval_row. rewrite ce_to_lde_blowup_eq.
+  rewrite (read_frame_spec lde_main tpolys i lde_main_ok Hi).
+  rewrite (get_ce_x_at_spec O L n ceb offset rou i Hi).
+  unfold evaluate_main_transition. rewrite Hrow.
+  rewrite mapM_map.
+  rewrite (mapM_some _ (fun ag : AG => rsum (map (bterm tpolys (ce_x i)) (snd (fst ag))))).
+  2:{ intros ag Hag. apply (pg_evaluate_main_spec ag i Hi). exact (proj1 (Forall_forall _ _) ags_ok _ Hag). }
+  set (fac := fun d : @Div F => dfac (ce_x i) d *f div_exemptions_at O d (ce_x i)).
+  rewrite (combine_row_spec fac).
+  2:{ intros [d zs] Hin. apply in_map_iff in Hin. destruct Hin as [d' [E Hd]]. inversion E; subst d' zs. cbn [fst snd].
+      destruct Hd as [<-|Hd]; [apply acc_factor_spec; [exact Hi | apply tdiv_ok | apply tdiv_ok]|].
+      rewrite map_map in Hd. apply in_map_iff in Hd. destruct Hd as [[[d' m] a] [<- Hin]].
+      pose proof (proj1 (Forall_forall _ _) ags_ok _ Hin) as [[_ [Ha Hb]] _].
+      apply acc_factor_spec; assumption. }
+  f_equal. unfold divisors. rewrite !map_map. cbn [map combine fst snd].
+  rewrite (map_map (fun x : AG => pg_div (realize x))).
+  rewrite combine_map_map, map_map. cbn [fst snd].
+  change (rsum (?v :: ?l)) with (v +f rsum l).
+  (* the boundary part *)
+  assert (Eb : rsum (map (fun ag : AG => rsum (map (bterm tpolys (ce_x i)) (snd (fst ag))) *f fac (pg_div (realize ag))) ags)
+               = def_boundary O main_groups aux_groups false tpolys apolys (ce_x i)).
+  { unfold def_boundary. rewrite ags_main_only, map_map. cbn [fst snd].
+    transitivity (rsum (map (fun g => def_group O tpolys g (ce_x i)) main_groups)); [|ring].
+    apply (rsum_map_ext O). intros g Hg. rewrite def_group_bterm. cbn [realize pg_div].
+    destruct (main_ok g Hg) as [[Hex _] _]. unfold fac, div_exemptions_at. rewrite Hex. simpl. ring. }
+  rewrite Eb. unfold Composition.comp_def. f_equal.
+  (* the transition part *)
+  unfold fac. rewrite tdiv_factor. unfold def_transition, def_constraints.
+  rewrite app_nil_r, (rsum_div O L), (fl_div_def O L). f_equal.
+  set (t1 := tmain _ _ _).
+  assert (E : combine t1 tcoef = combine t1 (main_coef num_main tcoef)).
+  { unfold main_coef. unfold t1 at 2. rewrite <- (tmain_len (def_cur O tpolys (ce_x i)) (def_nxt O n rou tpolys (ce_x i))
+                                                   (def_periodic O n ppolys (ce_x i))).
+    fold t1. rewrite <- (app_nil_r t1) at 1. rewrite combine_app_l. simpl. now rewrite app_nil_r. }
+  rewrite E, <- (lincomb_rsum O L). reflexivity.
+Qed.
+End MainOnly.
+
 (* ---------------------------------------------------------------- capstone *)
 Lemma peval_all_zero l z : (forall v, In v l -> v = fz) -> peval l z = fz.
 Proof.
@@ -501,17 +562,81 @@ Proof.
 Qed.
 
 Section Capstone.
-(* `interp` stands for fft::interpolate_poly_with_offset over the ce coset: it returns |ce| coefficients of a polynomial
-   with the given evaluations (C09), and such a polynomial is unique (distinct points; C20/C09).  Both facts are
-   HYPOTHESES here. *)
+(* `interp` stands for fft::interpolate_poly_with_offset over the ce coset.  The only fact needed about it is the round
+   trip "interpolating the evaluations of a polynomial with |ce| coefficients over the ce coset returns that polynomial"
+   (C09_interpolate_with_offset_spec; discharged in Proofs/CompositionFFT.v). *)
+Variable interp : list F -> list F.
+(* deg comp_def < |ce domain|, in the only form that makes sense for a rational function: a coefficient list q with
+   at most min(|ce|, num_cols * n) coefficients agrees with comp_def wherever no divisor vanishes (`good`), in
+   particular on the ce coset (this is where validity of the trace enters: C16 / C01_air_quotient_exists) *)
+Variable good : F -> Prop.
+Variable q : list F.
+Variable num_cols : nat.
+Variable has_aux : bool.
+Hypothesis q_is_def : forall z, good z -> peval q z = comp_def has_aux z.
+Hypothesis ce_good : forall i, i < ce_size -> good (ce_x i).
+Hypothesis q_len_ce : length q <= ce_size.
+Hypothesis q_len_cols : length q <= num_cols * n.
+Hypothesis n_lt_ce : n < ce_size.                       (* CompositionPoly::new's assert: ce blowup >= 2 *)
+Hypothesis evaluate_is_def :
+  evaluate O n ceb ldeb offset rou num_main tmain taux ppolys exemptions tcoef main_groups aux_groups rands has_aux
+           lde_main lde_aux (fun _ v => v) = Some (map (fun i => comp_def has_aux (ce_x i)) (seq 0 ce_size)).
+
+Section RoundTrip.
+Hypothesis interp_roundtrip : forall p, length p = ce_size ->
+  interp (map (fun i => peval p (ce_x i)) (seq 0 ce_size)) = p.
+
+Lemma composition_core :
+  exists evals cols,
+    evaluate O n ceb ldeb offset rou num_main tmain taux ppolys exemptions tcoef main_groups aux_groups rands has_aux
+             lde_main lde_aux (fun _ v => v) = Some evals
+    /\ composition_poly_new n interp evals num_cols = Some cols
+    /\ (forall z, recombine O n (cp_evaluate_at O cols z) z = peval q z)
+    /\ (forall z, good z -> recombine O n (cp_evaluate_at O cols z) z = comp_def has_aux z).
+Proof.
+  set (evals := map (fun i => comp_def has_aux (ce_x i)) (seq 0 ce_size)).
+  assert (Hlen : length evals = ce_size) by (unfold evals; now rewrite map_length, seq_length).
+  set (qpad := q ++ repeat fz (ce_size - length q)).
+  assert (Hh : interp evals = qpad).
+  { rewrite <- (interp_roundtrip qpad) by (unfold qpad; rewrite app_length, repeat_length; lia).
+    f_equal. unfold evals. apply map_ext_in. intros i Hi. apply in_seq in Hi.
+    unfold qpad. rewrite peval_pad. symmetry. apply q_is_def, ce_good. lia. }
+  destruct (segment_some n n_pos num_cols (interp evals)) as [cols Hcols].
+  exists evals, cols. split; [exact evaluate_is_def|]. split.
+  { unfold composition_poly_new. rewrite Hlen. apply Nat.ltb_lt in n_lt_ce. now rewrite n_lt_ce. }
+  assert (Hre : forall z, recombine O n (cp_evaluate_at O cols z) z = peval q z).
+  { intros z. rewrite (column_split_recombine_gen O L n n_pos num_cols _ z cols Hcols), Hh. unfold qpad.
+    rewrite firstn_app, (firstn_all2 q) by exact q_len_cols.
+    rewrite (peval_app O L), (peval_all_zero (firstn _ _)); [ring|].
+    intros v Hv. apply in_firstn in Hv. now apply repeat_spec in Hv. }
+  split; [exact Hre|]. intros z Hz. now rewrite Hre, q_is_def.
+Qed.
+End RoundTrip.
+
+(* the round trip follows from "interpolation returns a polynomial with the given evaluations" + uniqueness *)
+Hypothesis interp_evals : forall evals, length evals = ce_size ->
+  length (interp evals) = ce_size /\ forall i, i < ce_size -> peval (interp evals) (ce_x i) = nth i evals fz.
+Hypothesis interp_unique : forall p1 p2, length p1 = ce_size -> length p2 = ce_size ->
+  (forall i, i < ce_size -> peval p1 (ce_x i) = peval p2 (ce_x i)) -> p1 = p2.
+
+Lemma roundtrip_from_unique : forall p, length p = ce_size ->
+  interp (map (fun i => peval p (ce_x i)) (seq 0 ce_size)) = p.
+Proof.
+  intros p Hp. set (ev := map (fun i => peval p (ce_x i)) (seq 0 ce_size)).
+  assert (Hl : length ev = ce_size) by (unfold ev; now rewrite map_length, seq_length).
+  destruct (interp_evals ev Hl) as [Hil Hiv]. apply interp_unique; [exact Hil | exact Hp|].
+  intros i Hi. rewrite (Hiv i Hi). unfold ev.
+  rewrite (nth_indep _ fz (peval p (ce_x 0))) by (now rewrite map_length, seq_length).
+  rewrite (map_nth (fun i0 => peval p (ce_x i0)) (seq 0 ce_size) 0 i), seq_nth by assumption. reflexivity.
+Qed.
+End Capstone.
+
+Section CapstoneAux.
 Variable interp : list F -> list F.
 Hypothesis interp_evals : forall evals, length evals = ce_size ->
   length (interp evals) = ce_size /\ forall i, i < ce_size -> peval (interp evals) (ce_x i) = nth i evals fz.
 Hypothesis interp_unique : forall p1 p2, length p1 = ce_size -> length p2 = ce_size ->
   (forall i, i < ce_size -> peval p1 (ce_x i) = peval p2 (ce_x i)) -> p1 = p2.
-(* deg comp_def < |ce domain|, in the only form that makes sense for a rational function: a coefficient list q with
-   fewer than num_cols * n <= ... coefficients agrees with comp_def wherever no divisor vanishes (`good`), in particular
-   on the ce coset (this is where validity of the trace enters: C16) *)
 Variable good : F -> Prop.
 Variable q : list F.
 Variable num_cols : nat.
@@ -519,7 +644,7 @@ Hypothesis q_is_def : forall z, good z -> peval q z = comp_def true z.
 Hypothesis ce_good : forall i, i < ce_size -> good (ce_x i).
 Hypothesis q_len_ce : length q <= ce_size.
 Hypothesis q_len_cols : length q <= num_cols * n.
-Hypothesis n_lt_ce : n < ce_size.                       (* CompositionPoly::new's assert: ce blowup >= 2 *)
+Hypothesis n_lt_ce : n < ce_size.
 
 Theorem composition_is_definition_partial :
   exists evals cols,
@@ -529,24 +654,9 @@ Theorem composition_is_definition_partial :
     /\ (forall z, recombine O n (cp_evaluate_at O cols z) z = peval q z)
     /\ (forall z, good z -> recombine O n (cp_evaluate_at O cols z) z = comp_def true z).
 Proof.
-  set (evals := map (fun i => comp_def true (ce_x i)) (seq 0 ce_size)).
-  assert (Hlen : length evals = ce_size) by (unfold evals; now rewrite map_length, seq_length).
-  destruct (interp_evals evals Hlen) as [Hil Hiv].
-  assert (Hh : interp evals = q ++ repeat fz (ce_size - length q)).
-  { apply interp_unique; [exact Hil | rewrite app_length, repeat_length; lia|].
-    intros i Hi. rewrite (Hiv i Hi), peval_pad, (q_is_def _ (ce_good i Hi)).
-    unfold evals. rewrite (nth_indep _ fz (comp_def true (ce_x 0))) by (now rewrite map_length, seq_length).
-    rewrite (map_nth (fun i0 => comp_def true (ce_x i0)) (seq 0 ce_size) 0 i), seq_nth by assumption. reflexivity. }
-  destruct (segment_some n n_pos num_cols (interp evals)) as [cols Hcols].
-  exists evals, cols. split; [apply evaluate_spec_aux|]. split.
-  { unfold composition_poly_new. rewrite Hlen. apply Nat.ltb_lt in n_lt_ce. now rewrite n_lt_ce. }
-  assert (Hre : forall z, recombine O n (cp_evaluate_at O cols z) z = peval q z).
-  { intros z. rewrite (column_split_recombine_gen O L n n_pos num_cols _ z cols Hcols), Hh.
-    rewrite firstn_app, (firstn_all2 q) by exact q_len_cols.
-    rewrite (peval_app O L), (peval_all_zero (firstn _ _)); [ring|].
-    intros v Hv. apply in_firstn in Hv. now apply repeat_spec in Hv. }
-  split; [exact Hre|]. intros z Hz. now rewrite Hre, q_is_def.
+  apply (composition_core interp good q num_cols true q_is_def ce_good q_len_ce q_len_cols n_lt_ce evaluate_spec_aux).
+  apply (roundtrip_from_unique interp interp_evals interp_unique).
 Qed.
-End Capstone.
+End CapstoneAux.
 
 End Table.
